@@ -8,7 +8,9 @@ package main
 
 import (
 	"encoding/json"
+	"context"
 	"errors"
+	"io"
 	"fmt"
 	"os"
 	"path/filepath"
@@ -296,6 +298,7 @@ type c17Case struct {
 	FailAt    int    `json:"fail_at"`   // the callback fails on its (fail_at+1)-th call, -1 = never
 	Presented int    `json:"presented"` // calls made in the failing run
 	ErrIsOurs bool   `json:"err_is_ours"`
+	FailErr   string `json:"fail_err,omitempty"` // the error value of the run in which Walk did not hand it back
 	Nodes     int    `json:"nodes"`
 	Distinct  int    `json:"distinct_ids"`
 	// the same walk while other walks are under way: started from inside the callback (every node handed over is walked
@@ -306,6 +309,12 @@ type c17Case struct {
 }
 
 var errStop = errors.New("stop here")
+
+type c17StopErr struct{ code int }
+
+func (e *c17StopErr) Error() string { return "stopped" }
+
+var errStopPtr error = &c17StopErr{1}
 
 func c17Parse(src string) (*c17Case, anko.Stmt, map[interface{}]int, bool) {
 	stmt, err := parser.ParseSrc(src)
@@ -401,16 +410,30 @@ func c17Walk(c *c17Case, stmt anko.Stmt, ids map[interface{}]int, rnd *Rand) {
 	}
 	if len(c.Seq) > 0 {
 		c.FailAt = rnd.Intn(len(c.Seq))
+		// whatever error value the callback hands back - also ones that mean "done" elsewhere - is what Walk returns
+		pool := []error{errStop, io.EOF, io.ErrUnexpectedEOF, context.Canceled, context.DeadlineExceeded, errors.New(""), &parser.Error{Message: "refused"}, errStopPtr, filepath.SkipDir, io.ErrClosedPipe}
 		n := 0
-		ferr := astutil.Walk(stmt, func(x interface{}) error {
-			n++
-			if n-1 == c.FailAt {
-				return errStop
+		c.ErrIsOurs = true
+		for k := 0; k < 3; k++ {
+			chosen := pool[rnd.Intn(len(pool))]
+			if k == 0 {
+				chosen = pool[(c.FailAt+len(c.Seq))%len(pool)]
 			}
-			return nil
-		})
+			n = 0
+			ferr := astutil.Walk(stmt, func(x interface{}) error {
+				n++
+				if n-1 == c.FailAt {
+					return chosen
+				}
+				return nil
+			})
+			if ferr != chosen || n != c.FailAt+1 {
+				c.ErrIsOurs = ferr == chosen
+				c.FailErr = fmt.Sprintf("%T %q", chosen, chosen.Error())
+				break
+			}
+		}
 		c.Presented = n
-		c.ErrIsOurs = ferr == errStop
 	}
 }
 
